@@ -7,6 +7,7 @@ from .. import runprops as P
 
 PROP = "C01"
 PROP_V = "theories/props/C01.v"
+MODEL_AREAS = ('front', 'tc', 'run')
 
 
 def is_bad(res):
